@@ -28,7 +28,8 @@ from ..util import data, Rng
 CURVES = ["p192", "p224", "p256", "p384", "p521", "ed25519", "ed448", "curve25519", "curve448"]
 WS = CURVES[:5]
 OP_KINDS = ["hash_copy", "hash_copy", "cipher", "cipher", "ec", "ec", "ec", "ecdsa", "ecdsa", "eddsa", "eddsa", "rsa", "modexp", "kdf", "shamir",
-            "gc", "ecdh", "import_key", "cmac_copy", "hmac_copy", "xof", "point_ops", "generate"]
+            "gc", "ecdh", "import_key", "cmac_copy", "hmac_copy", "xof", "point_ops", "generate", "dsa", "primality", "bcrypt", "export_import",
+            "poly1305", "pkcs1_v15", "hash_all", "hash_all", "mac_verify", "big_gcm"]
 
 
 def dg(*xs):
@@ -64,6 +65,9 @@ class Machine(object):
         entropy.reset_stream("c19-keys")
         k = RSA.generate(1024)
         self.rsa_comps = tuple(int(getattr(k, c)) for c in ("n", "e", "d", "p", "q", "u"))
+        from Crypto.PublicKey import DSA
+        dk = DSA.generate(1024)
+        self.dsa_comps = tuple(int(getattr(dk, c)) for c in ("y", "g", "p", "q", "x"))
         entropy.reset_stream(0)
         self.inst = S.shim().available()
         # the lazily loaded curve contexts draw a scrambling seed at first use: that entropy belongs to the shared
@@ -71,7 +75,7 @@ class Machine(object):
         entropy.lazy_init_stream = True
 
     def budget(self, tier):
-        return 3500 if tier == "quick" else 120000
+        return 3000 if tier == "quick" else 120000
 
     def classify_crash(self, case, pid, status, text):
         c = engine.Ctx()
@@ -417,6 +421,114 @@ class Machine(object):
             del live[:]
             gc.collect()
             return "gc"
+        if kind == "dsa":
+            from Crypto.PublicKey import DSA
+            from Crypto.Signature import DSS
+            from Crypto.Hash import SHA256
+            k = DSA.construct(self.dsa_comps, consistency_check=False)
+            h = SHA256.new(msg)
+            hb = h.digest()
+            sig = DSS.new(k, "deterministic-rfc6979" if salt & 1 else "fips-186-3").sign(h)
+            DSS.new(k.publickey(), "fips-186-3").verify(h, sig)
+            self._same("hash object", hb, h.digest())
+            return dg(sig) if salt & 1 else dg(len(sig))
+        if kind == "primality":
+            from Crypto.Math.Primality import test_probable_prime, generate_probable_prime
+            from Crypto.Util import number
+            cands = [2 ** 127 - 1, 2 ** 89 - 1, 561, 2 ** 128 + 1, 3215031751, 2 ** 255 - 19, (2 ** 61 - 1) * (2 ** 89 - 1)]
+            r1 = [int(test_probable_prime(c)) for c in cands[salt % 3:salt % 3 + 3]]
+            r2 = number.isPrime(cands[salt % 7]), number.size(cands[salt % 7])
+            p_ = int(generate_probable_prime(exact_bits=160 + salt % 8))
+            if not number.isPrime(p_) or p_.bit_length() != 160 + salt % 8:
+                raise Mutated("generate_probable_prime returned a composite or a wrong size")
+            return dg(r1, r2)
+        if kind == "bcrypt":
+            from Crypto.Protocol.KDF import bcrypt, bcrypt_check
+            pw = bytes(msg[:salt % 50])
+            h = bcrypt(pw, 4, salt=data(seed + 3, 16))
+            bcrypt_check(pw, h)
+            return dg(h)
+        if kind == "export_import":
+            from Crypto.PublicKey import RSA
+            if salt & 1:
+                k = RSA.construct(self.rsa_comps, consistency_check=False)
+                blob = k.export_key("PEM", passphrase=b"pw%d" % salt, pkcs=8, protection="PBKDF2WithHMAC-SHA512AndAES256-CBC", prot_params={"iteration_count": 3})
+                k2 = RSA.import_key(blob, passphrase=b"pw%d" % salt)
+            else:
+                c = curve if curve in WS else WS[salt % 5]
+                k = ECC.construct(curve=c, d=13 + seed)
+                blob = k.export_key(format="PEM", passphrase=b"pw%d" % salt, protection="PBKDF2WithHMAC-SHA512AndAES256-GCM", prot_params={"iteration_count": 3})
+                k2 = ECC.import_key(blob, passphrase=b"pw%d" % salt)
+            if k2 != k:
+                raise Mutated("export/import under a passphrase lost the key")
+            return dg(len(blob))
+        if kind == "poly1305":
+            from Crypto.Hash import Poly1305
+            from Crypto.Cipher import AES, ChaCha20
+            cm = [AES, ChaCha20][salt & 1]
+            kw = dict(key=data(seed, 32), cipher=cm, nonce=data(seed + 1, 16 if cm is AES else 12))
+            h = Poly1305.new(data=msg, **kw)
+            t = h.digest()
+            Poly1305.new(data=bytes(snap), **kw).verify(t)
+            self._same("message buffer", snap, bytes(msg))
+            return dg(t)
+        if kind == "pkcs1_v15":
+            from Crypto.PublicKey import RSA
+            from Crypto.Cipher import PKCS1_v1_5
+            k = RSA.construct(self.rsa_comps, consistency_check=False)
+            ct = PKCS1_v1_5.new(k.publickey()).encrypt(bytes(msg[:50]))
+            sentinel = b"S" * 10
+            pt = PKCS1_v1_5.new(k).decrypt(ct, sentinel)
+            bad = PKCS1_v1_5.new(k).decrypt(bytes(len(ct) - 1) + b"\x05", sentinel)
+            if pt != bytes(msg[:50]) or bad != sentinel:
+                raise Mutated("PKCS#1 v1.5 decryption gave a wrong result")
+            return dg(len(ct))
+        if kind == "hash_all":
+            fams = [f for f in F.HASH_FAMILIES if not f.startswith("TupleHash")]     # TupleHash: each update() is one tuple element
+            fam = fams[salt % len(fams)]
+            cfg = F.gen_hash_cfg(Rng(seed), fam)
+            h1 = F.make_hash(cfg)
+            h2 = F.make_hash(cfg)
+            big = data(seed + 5, 300 + 37 * salt)
+            for i in range(0, len(big), 97):
+                h1.update(big[i:i + 97])
+            h2.update(big)
+            a = h1.read(40) if F.is_xof(fam) else h1.digest()
+            b = h2.read(40) if F.is_xof(fam) else h2.digest()
+            if a != b:
+                raise Mutated("two objects fed the same data disagree (%s)" % fam)
+            return dg(a)
+        if kind == "mac_verify":
+            fam = ["HMAC", "CMAC", "KMAC128", "KMAC256", "Poly1305", "BLAKE2b", "BLAKE2s"][salt % 7]
+            cfg = F.gen_hash_cfg(Rng(seed), fam)
+            if fam.startswith("BLAKE2") and not cfg.get("key"):
+                cfg["key"] = [seed, 16]
+            h = F.make_hash(cfg)
+            h.update(msg)
+            t = h.digest()
+            v = F.make_hash(cfg)
+            v.update(bytes(snap))
+            v.verify(t)
+            try:
+                w = F.make_hash(cfg)
+                w.update(bytes(snap) + b"!")
+                w.verify(t)
+                raise Mutated("a MAC over a different message verified (%s)" % fam)
+            except ValueError:
+                pass
+            return dg(t)
+        if kind == "big_gcm":
+            from Crypto.Cipher import AES
+            key = data(seed, [16, 24, 32][salt % 3])
+            pt = data(seed + 1, 1000 + 131 * salt)
+            c = AES.new(key, AES.MODE_GCM, nonce=data(seed + 2, 12), use_aesni=bool(salt & 1), use_clmul=bool(salt & 2))
+            c.update(msg)
+            ct, tag = c.encrypt_and_digest(pt)
+            d = AES.new(key, AES.MODE_GCM, nonce=data(seed + 2, 12))
+            d.update(bytes(snap))
+            if d.decrypt_and_verify(ct, tag) != pt:
+                raise Mutated("GCM round trip failed")
+            return dg(ct, tag)
         raise ValueError(kind)
 
     def simplify(self, case):
